@@ -76,6 +76,7 @@ func c03(r *core.Run) {
 	r.Rule("C03/R4", "the paid pool is what was pulled: the payout amount depends on every source of the gauge->module pull amount")
 	r.Rule("C03/R7", "the burn counter is written as (count read from the store in this invocation)+1: no cached or passed-in provider record")
 	r.Rule("C03/R6", "decode targets are fresh: no proto Unmarshal on the reward path decodes into a variable captured from an enclosing function (the generated decoder appends to repeated fields, so a reused target accumulates the prover lists of earlier files)")
+	r.Rule("C03/R10", "the window a proof is judged by is the governance-set one: on transaction / block paths UnifiedFile.ProofInterval is assigned the storage parameter ProofWindow and nothing else")
 	r.Rule("C03/R5", "the keys handed to the per-proof routine are exactly the processed file's prover list: file.Proofs itself or a per-file copy of len(file.Proofs) elements filled from it")
 	heightDimensions(r, "C03/R8", moduleFuncs(p, "storage"), 8)
 	bb, _ := p.BlockEntries()
@@ -150,6 +151,9 @@ func c03(r *core.Run) {
 	}
 	r.Floor("C03/R1", nLoops, 1, "loops over a file's prover list on the reward path")
 
+	if reachTx, errTx := p.TxReachable(); errTx == nil {
+		r.Floor("C03/R10", fieldOnlyFromParam(r, "C03/R10", "x/storage/types.UnifiedFile", "ProofInterval", "storage", "ProofWindow", reachTx), 1, "assignments of UnifiedFile.ProofInterval")
+	}
 	// ---- R2 per-proof unit: the code deciding one (file, prover) pair, its executions enumerated abstractly
 	unit := perProofUnit(p, funcs)
 	routine, credit := unit.Routine, unit.Credit
@@ -268,52 +272,7 @@ func c03(r *core.Run) {
 
 	// ---- R5 the list handed to the per-proof routine is exactly the file's prover list
 	if routine != nil {
-		nCall := 0
-		for _, caller := range p.CG().In[routine] {
-			allInstrs(caller, func(in ssa.Instruction) {
-				call, ok := in.(ssa.CallInstruction)
-				if !ok {
-					return
-				}
-				isR := false
-				for _, cal := range p.Callees(call) {
-					if cal == routine {
-						isR = true
-					}
-				}
-				if !isR {
-					return
-				}
-				nCall++
-				// key argument: the string argument; file argument: the *UnifiedFile argument
-				var keyArg, fileArg ssa.Value
-				for _, a := range call.Common().Args {
-					if a.Type().String() == "string" {
-						keyArg = a
-					}
-					if core.TypeName(a.Type()) == "x/storage/types.UnifiedFile" {
-						fileArg = a
-					}
-				}
-				if keyArg == nil || fileArg == nil {
-					r.Undecided("C03/R5", core.FnName(caller)+":per-proof-call-shape", p.InstrPos(call), "per-proof routine is not called with (file, key)")
-					return
-				}
-				// the key is an element of a slice S
-				var sl ssa.Value
-				if ld, ok := keyArg.(*ssa.UnOp); ok {
-					if ia, ok := ld.X.(*ssa.IndexAddr); ok {
-						sl = ia.X
-					}
-				}
-				ok5, why := false, "the key is not an element of a slice"
-				if sl != nil {
-					ok5, why = iterationListIsFileList(p, sl, fileArg)
-				}
-				r.Check(ok5, "C03/R5", core.FnName(caller)+":iterated-list=file-list", p.InstrPos(call), why, "the keys handed to the per-proof routine are not exactly the prover list of the file being processed ("+why+"): provers of other files can be credited or burned against this file")
-			})
-		}
-		r.Floor("C03/R5", nCall, 1, "per-proof routine call sites")
+		perProofKeysFromFileList(r, "C03/R5", routine)
 	}
 
 	// ---- R7 the burn counter is incremented from a fresh read of the provider record
@@ -581,4 +540,56 @@ func derefStruct(t types.Type) (*types.Struct, bool) {
 	}
 	st, ok := t.Underlying().(*types.Struct)
 	return st, ok
+}
+
+// perProofKeysFromFileList: at every call of the per-proof routine the key is an element of the processed file's own
+// prover list (file.Proofs itself or a per-file copy of exactly its length).
+func perProofKeysFromFileList(r *core.Run, rule string, routine *ssa.Function) {
+	p := r.Prog
+	nCall := 0
+	for _, caller := range p.CG().In[routine] {
+		allInstrs(caller, func(in ssa.Instruction) {
+			call, ok := in.(ssa.CallInstruction)
+			if !ok {
+				return
+			}
+			isR := false
+			for _, cal := range p.Callees(call) {
+				if cal == routine {
+					isR = true
+				}
+			}
+			if !isR {
+				return
+			}
+			nCall++
+			// key argument: the string argument; file argument: the *UnifiedFile argument
+			var keyArg, fileArg ssa.Value
+			for _, a := range call.Common().Args {
+				if a.Type().String() == "string" {
+					keyArg = a
+				}
+				if core.TypeName(a.Type()) == "x/storage/types.UnifiedFile" {
+					fileArg = a
+				}
+			}
+			if keyArg == nil || fileArg == nil {
+				r.Undecided(rule, core.FnName(caller)+":per-proof-call-shape", p.InstrPos(call), "per-proof routine is not called with (file, key)")
+				return
+			}
+			// the key is an element of a slice S
+			var sl ssa.Value
+			if ld, ok := keyArg.(*ssa.UnOp); ok {
+				if ia, ok := ld.X.(*ssa.IndexAddr); ok {
+					sl = ia.X
+				}
+			}
+			ok5, why := false, "the key is not an element of a slice"
+			if sl != nil {
+				ok5, why = iterationListIsFileList(p, sl, fileArg)
+			}
+			r.Check(ok5, rule, core.FnName(caller)+":iterated-list=file-list", p.InstrPos(call), why, "the keys handed to the per-proof routine are not exactly the prover list of the file being processed ("+why+"): provers of other files can be credited or burned against this file")
+		})
+	}
+	r.Floor(rule, nCall, 1, "per-proof routine call sites")
 }
